@@ -246,7 +246,7 @@ _p('C06', 'A model can only hold what the language allows',
             ('R17', 'Model.add_association')], floor=5)
 
 _p('C07', 'Saving and loading a model preserves it (JSON and YAML)',
-   ['R8', 'R4', 'R15', 'R10', 'R22', 'R25'],
+   ['R8', 'R4', 'R15', 'R10', 'R22', 'R17', 'R25'],
    decided=['R8 i-ii: every key Model._to_dict (with asset/association/attacker_to_dict) writes is read by '
             '_from_dict and every key read unguarded is written unconditionally',
             'R8 iii: conversions invert per declared field type; asset / attacker ids that travelled as mapping '
@@ -332,7 +332,7 @@ _p('C11', 'Attackers and nodes always agree on what is compromised',
             ('R8', 'AttackGraph.attach_attackers')])
 
 _p('C12', 'Attack-surface queries follow their definition; incremental = recomputed',
-   ['R17', 'R12', 'R10', 'R23', 'R22', 'R25'],
+   ['R17', 'R12', 'R10', 'R23', 'R22', 'R1', 'R25'],
    decided=['R17 T7: is_node_traversable_by_attacker equals: viable and (or-step, or and-step all of whose '
             'necessary parents THIS attacker compromised)',
             'R17 T8: is_enabled_defense / is_available_defense and the two defense surfaces equal their definitions; '
@@ -359,7 +359,7 @@ _p('C13', 'Pruning removes exactly the non-viable or unnecessary attack steps',
    also=[('R2', 'AttackGraph.remove_node'), ('R3', 'AttackGraph.remove_node')], includes=['C09'])
 
 _p('C14', 'A deep copy of an attack graph is equal and fully independent',
-   ['R7', 'R10', 'R22', 'R25'],
+   ['R7', 'R10', 'R22', 'R20', 'R25'],
    decided=['R7a: every field of node / attacker / graph receives its value in the copy, scalars and '
             'shared fields (asset, model, lang_graph) from the same field of the original',
             'R7b: every mutable container field gets an independent value (empty literal, deepcopy with '
@@ -420,7 +420,7 @@ _p('C15', 'Language graph mirrors the language and over-approximates every attac
 
 
 _p('C18', 'Legacy model loaders agree with the native loader',
-   ['R15', 'R4', 'R8', 'R22', 'R20', 'R10', 'R25'],
+   ['R15', 'R4', 'R8', 'R22', 'R20', 'R10', 'R17', 'R25'],
    decided=['R15 EVERY: in the 0.0.39 loader and the securiCAD loader every iteration over assets, defenses, '
             'association fields, associations, attackers and entry points reaches a model sink (add_asset / '
             'setattr / add_association / add_attacker / entry point) or leaves by return/raise - no element is '
@@ -433,7 +433,7 @@ _p('C18', 'Legacy model loaders agree with the native loader',
             ('R8', 'load_model_from_version_0_0_39._process_model')], floor=8)
 
 _p('C19', 'Neo4j export is isomorphic to what is exported, and import inverts it',
-   ['R16', 'R15', 'R10', 'R22', 'R8', 'R25'],
+   ['R16', 'R15', 'R10', 'R22', 'R8', 'R17', 'R20', 'R4', 'R25'],
    decided=['R16a: one database node per asset / attack step, collected under a guarded-unique key',
             'R16b: relationships are accumulated without loss; each linked pair yields two relationships with '
             'swapped end points and the two field labels; one relationship per child edge',
